@@ -277,7 +277,7 @@ func splitNode[T any](n *node[T], pos int) (*node[T], error) {
 // 将所有的路由地址列表写入 routes
 func (n *node[T]) routes(routes map[string][]string) {
 	if n.size() > 0 { // methodIndex 在 hasTrace 时，即使没有任何处理函数也不为零。
-		routes[n.Pattern()] = getMethodIndexEntity(n.methodIndex).methods // 已经在 Routes 的锁范围之内
+		routes[n.Pattern()] = slices.Clone(getMethodIndexEntity(n.methodIndex).methods) // 已经在 Routes 的锁范围之内
 	}
 
 	for _, v := range n.children {
